@@ -30,6 +30,7 @@ var oracleProps = map[string]string{
 	"C21/effect":             "C21",
 	"C21/must-fail":          "C21",
 	"C21/data-changed":       "C21",
+	"C21/old-state-changed":  "C21 C04",
 	"C19/asof":               "C19",
 	"C20/tools":              "C20",
 	"C05/crash":              "C05",
@@ -468,17 +469,42 @@ func (h *harness) genAdmin(sn *snap) adminReq {
 
 // doAdmin executes one admin request and checks the C21 obligations.
 func (h *harness) doAdmin(r adminReq) bool {
-	before := h.snapNow(true)
-	if before == nil {
+	// the state before the request, and a read transaction that keeps looking at it
+	var before *snap
+	var rt0 *db19.ReadTran
+	var err0 error
+	h.s.Inspect(func() {
+		rt0 = h.db.NewReadTran()
+		before, err0 = takeSnap(h.db, rt0, true)
+	})
+	if err0 != nil {
+		h.fail("C21/invariant", "", "%v", err0)
 		return false
 	}
-	h.inflight = true // its effect can be persisted before it returns
+	// its effect can be persisted before it returns, and it stays "in flight" until its
+	// event has been appended to the history (the checks in between yield to the persister)
+	h.inflight = true
+	defer func() { h.inflight = false }()
 	res := try(func() { query.DoAdmin(h.db, r.text, nil) })
-	h.inflight = false
+	if res != "" {
+		h.inflight = false // a refused request is no event
+	}
 	h.logf("admin %q -> %s", r.text, orOK(res))
 	h.ri.Count("admin."+r.kind+":"+okOrFail(res), 1)
 	after := h.snapNow(true)
 	if after == nil {
+		return false
+	}
+	// a published state never changes: the transaction that was started before the request
+	// still sees exactly what it saw then, whether the request succeeded or not
+	var again *snap
+	h.s.Inspect(func() { again, err0 = takeSnap(h.db, rt0, true) })
+	if err0 != nil {
+		h.fail("C21/old-state-changed", "", "after %q (%s) a transaction started before it can no longer read its state: %v", r.text, orOK(res), err0)
+		return false
+	}
+	if d := diffSnap(before, again, true); d != "" {
+		h.fail("C21/old-state-changed", "", "after %q (%s) a transaction started before it sees a different database than when it started: %s", r.text, orOK(res), d)
 		return false
 	}
 	if res != "" {
@@ -531,6 +557,7 @@ func (h *harness) doAdmin(r adminReq) bool {
 	}
 	h.refreshKeys(after)
 	h.events = append(h.events, h.logicalModel())
+	h.inflight = false
 	// effects
 	switch r.kind {
 	case "create", "ensure", "altercreate":
@@ -792,8 +819,11 @@ func (h *harness) doTran(sn *snap) bool {
 		return true
 	}
 	h.inflight = true
+	defer func() { h.inflight = false }()
 	res := ut.Complete()
-	h.inflight = false
+	if res != "" {
+		h.inflight = false
+	}
 	h.logf("tran [%s] -> %s", strings.Join(desc, "; "), orOK(res))
 	if res == "" {
 		for _, p := range pending {
@@ -804,6 +834,7 @@ func (h *harness) doTran(sn *snap) bool {
 			}
 		}
 		h.events = append(h.events, h.logicalModel())
+		h.inflight = false
 		h.ri.Count("tran.committed", 1)
 	} else {
 		h.ri.Count("tran.failed", 1)
